@@ -17,16 +17,20 @@ EXTENDS Naturals, Sequences, FiniteSets, TLC, Json, SequencesExt
 (* pool of traits: name -> methods in declaration order (deliberately not alphabetical) *)
 Pool == [Zeta |-> <<"zz", "aa", "mm">>, Alpha |-> <<"b1", "a2">>, Mid |-> <<"only">>,
          Beta |-> <<"q", "p", "r", "o", "s">>, Nil |-> <<>>,
-         TB |-> <<"tb1">>, Ta |-> <<"ta2", "ta1">>]
+         TB |-> <<"tb1">>, Ta |-> <<"ta2", "ta1">>,
+         \* methods with attributes: vo_* is #[vtbl_only] (a vtable slot like any other), sk_* is #[skip_func] (not exported)
+         Attr |-> <<"n1", "vo_a", "n2", "sk_b", "n3", "vo_c", "n4">>]
 Names == DOMAIN Pool
 
 (* name order = the order of Rust's string comparison on the identifiers (byte order: every upper-case  *)
 (* letter sorts before every lower-case one, so "TB" < "Ta"); existing binaries   *)
 (* rely on exactly this order, a case-insensitive or locale collation would move vtable pointers        *)
-Rank == [Alpha |-> 1, Beta |-> 2, Gamma |-> 3, Mid |-> 4, Nil |-> 5, Omega |-> 6, TB |-> 7, Ta |-> 8, Zeta |-> 9]
+Rank == [Alpha |-> 1, Attr |-> 2, Beta |-> 3, Gamma |-> 4, Mid |-> 5, Nil |-> 6, Omega |-> 7, TB |-> 8, Ta |-> 9, Zeta |-> 10]
 SortByRank(S) == SetToSortSeq(S, LAMBDA a, b : Rank[a] < Rank[b])
 
-VtblLayout(t) == Pool[t]
+Skipped(m) == m \in {"sk_b"}
+(* one function pointer per EXPORTED method, in declaration order - whatever attributes the methods carry *)
+VtblLayout(t) == SelectSeq(Pool[t], LAMBDA m : ~Skipped(m))
 
 (* a group definition: sequences (listing order) of mandatory names and of optional [trait, key] pairs *)
 Key(o) == o.key
@@ -59,6 +63,6 @@ ASSUME OrderInvariant
 VARIABLE done
 Init == done = FALSE
 Next == UNCHANGED done
-Emit == PrintT(<<"REPLAY", ToJson([traits |-> [t \in Names |-> VtblLayout(t)],
+Emit == PrintT(<<"REPLAY", ToJson([traits |-> [t \in Names |-> VtblLayout(t)], decls |-> [t \in Names |-> Pool[t]],
                                     groups |-> {[listing |-> l, layout |-> GroupLayout(l.mand, l.opt)] : l \in Listings}])>>)
 =============================================================================
